@@ -88,6 +88,7 @@ def required(tier):
              'identified-into-unidentified', 'unidentified-into-identified',
              'same-names-other-definitions', 'species-outside-file-dimension']
     cl = ['A:missing-required@0-file-creation-pending',
+          'A:in-memory-store-at-capacity@rejected-nothing-lost',
           'A:rejected-first-add-of-other-identification-kind']
     for kd in kinds:
         cl += [f'A:{kd}@middle', f'A:{kd}@append-first', f'A:{kd}@append-later']
@@ -97,7 +98,8 @@ def required(tier):
     cl += ['C:fs-before:os.mkdir', 'C:fs-before:os.rename', 'C:fs-before:open',
            'C:fs-after:os.mkdir', 'C:fs-after:os.rename', 'C:dataset-before',
            'C:dataset-after', 'C:json.dump-before', 'C:json.dump-partial', 'C:line',
-           'C:kill:os.mkdir', 'C:kill:os.rename', 'C:kill:open']
+           'C:kill:os.mkdir', 'C:kill:os.rename', 'C:kill:open',
+           'C:second-call:same arguments:refused']
     return {'classes': cl, 'counters': {'failpoints_fired': 100, 'post_state_checks': 100},
             'evaluations': 300}
 
@@ -593,6 +595,51 @@ def interrupted_merges(rng, workdir, rec, k, family, line_budget):
                     raise
                 except Exception:  # noqa: BLE001
                     pass
+        # what a user may try first: simply call merge again - with the same arguments, or
+        # with the inputs that are still in place.  Refused or not, nothing may get lost.
+        moved = [p for (loc, _), (p, _) in zip(located, ins) if loc != p]
+        still = [(p, s_) for (loc, s_), (p, _) in zip(located, ins) if loc == p]
+        completed = False
+        if moved:
+            for label, subset in (('same arguments', ins), ('inputs still in place', still)):
+                if not subset:
+                    continue
+                try:
+                    do_merge(d, subset)
+                    outcome = 'accepted'
+                except Exception as e:  # noqa: BLE001
+                    outcome = f'refused ({type(e).__name__})'
+                rec.count('naive_retries_after_interruption')
+                located = []
+                for p, snaps in ins:
+                    a, b = p.exists(), (out / p.name).exists()
+                    if not a and not b:
+                        raise M('a trajectory file is lost when merge is simply called again '
+                                'after an interrupted merge',
+                                {'file': p.name, 'second_call': label, 'second_call_outcome':
+                                 outcome, **ctx})
+                    loc = p if a else out / p.name
+                    check_file(loc, snaps, M, {'second_call': label, **ctx})
+                    located.append((loc, snaps))
+                rec.cls(f'C:second-call:{label}:{outcome.split(" ")[0]}')
+                if outcome == 'accepted':
+                    completed = True
+                    break
+        if completed and (out / 'metadata.json').exists():
+            # a second call completed a store: it must contain what it announces
+            try:
+                st2 = TrajectoryStore.open(base_file=out)
+                n2 = len(st2)
+                st2.close()
+            except Exception as e:  # noqa: BLE001
+                raise M('merged directory completed by a second call cannot be opened',
+                        {'error': f'{type(e).__name__}: {str(e)[:160]}', **ctx})
+            rec.cls('C:second-call:completed-a-store')
+            shutil.rmtree(out)          # start over for the clean retry below
+            ins = [(p, s_) for p, s_ in ins if p.exists()]
+            located = [(p, s_) for p, s_ in ins]
+            if not ins:
+                return
         # undo the partial moves, then the merge must be repeatable
         for (loc, _), (p, _) in zip(located, ins):
             if loc != p:
@@ -785,6 +832,45 @@ def _fs(fp, workdir, i):
     return fp.fs_watch(str(workdir), fail_at=i)
 
 
+def memory_full(rng, workdir, rec, k):
+    """An in-memory store filled exactly to the capacity of its cache: the next addition (and
+    one larger than the whole cache) is rejected and nothing already stored may be touched;
+    the store can then be saved and shows exactly the successful additions."""
+    from vlib.storeops import StoreHistory
+
+    n = rng.randint(1, 4)
+    h = StoreHistory(rng, workdir, rec, identified=rng.random() < 0.5, cache_items=n,
+                     in_memory=True, uid_base=k * 1000 + 300)
+    try:
+        h.open_session('create_mem')
+        for _ in range(n):
+            h.op_add()
+        for _ in range(rng.randint(1, 3)):
+            before = rec.counters.get('mem_refusals', 0)
+            h.op_add()                    # refused (would evict); model unchanged
+            if rec.counters.get('mem_refusals', 0) == before:
+                h._fail('an in-memory store at capacity accepted a further addition')
+            h.check_len()
+            h.check_all_reads()
+            if h.identified:
+                for _ in range(2):
+                    h.op_lookup(True)
+        if rng.random() < 0.5:
+            h.op_add_oversize()
+            h.check_all_reads()
+        h.op_save()
+        h.check_all_reads()
+        h.close('close')
+        h.open_session('read')
+        h.check_len()
+        h.check_all_reads()
+        h.op_iter()
+        h.close('close')
+        rec.cls('A:in-memory-store-at-capacity@rejected-nothing-lost')
+    finally:
+        h.cleanup()
+
+
 def run_shard(spec, rec):
     from vlib.storeops import Mismatch
 
@@ -797,6 +883,7 @@ def run_shard(spec, rec):
             try:
                 if part == 'A':
                     s = add_faults(rng, workdir, rec, k)
+                    memory_full(random.Random(f"{spec['seed']}-{k}-mem"), workdir, rec, k)
                 elif part == 'B':
                     s = refused_merges(rng, workdir, rec, k)
                 else:
